@@ -620,7 +620,7 @@ struct HtableFamily : Family {
       uint32_t val  = in->next_val++;
       auto     it   = in->model.find(k);
       bool     over = it != in->model.end();
-      int      var  = fr->case_insensitive() ? (over ? !in->variant[k] : (int)(val & 1)) : 0;
+      int      var  = fr->case_insensitive() && over ? !in->variant[k] : 0; // fresh: lower case; overwrite: the other letter case
       bool     ok   = fr->insert(in->cand[(size_t)k], var, val);
       if (!ok) {
         ctx.fail("retval-mismatch", std::string("insert of ") + (over ? "an existing" : "a fresh") + " key returned ARES_FALSE");
